@@ -707,7 +707,7 @@ pub fn replay(case: &Value) -> Option<(String, String)> {
 pub fn run(opts: &Opts) -> i32 {
     let t0 = now();
     let thorough = opts.tier == Tier::Thorough;
-    let n = if opts.budget > 0 { opts.budget } else if thorough { 400_000 } else { 5_000 };
+    let n = if opts.budget > 0 { opts.budget } else if thorough { 1_200_000 } else { 40_000 };
     let seed = opts.seed;
     let known = load_known_findings();
 
